@@ -263,7 +263,13 @@ func (m *Machine) freshName(label string) string {
 }
 
 func (m *Machine) newInput(label, kind string, s Sort) *Term {
-	t := m.tt.Var(m.freshName(label), s)
+	// the sort is part of the name: declarations are global in the solver
+	// process and the k-th input of two paths may have different sorts
+	tag := map[SortKind]string{SBool: "b", SBV: "i", SFP: "f", SReal: "r", SInt: "n"}[s.K]
+	if s.K == SBV || s.K == SFP {
+		tag += fmt.Sprint(s.Bits)
+	}
+	t := m.tt.Var(m.freshName(label)+"_"+tag, s)
 	m.inputs = append(m.inputs, InputRec{Label: label, Kind: kind, term: t})
 	return t
 }
